@@ -681,10 +681,12 @@ class InverseModel(Model):
         )
 
     def _raw_call(self, independent, param_vector):
+        # The solver starts from 1.0; keep that start inside the inversion limits
+        initial_guess = float(np.clip(1.0, self.independent_min, self.independent_max))
         if self.interpolate:
             return invert_function_interpolation(
                 independent,
-                1.0,
+                initial_guess,
                 self.independent_min,
                 self.independent_max,
                 lambda f_trial: self.model._raw_call(f_trial, param_vector),
@@ -693,7 +695,7 @@ class InverseModel(Model):
         else:
             return invert_function(
                 independent,
-                1.0,
+                initial_guess,
                 self.independent_min,
                 self.independent_max,
                 lambda f_trial: self.model._raw_call(f_trial, param_vector),  # Forward model
